@@ -548,9 +548,42 @@ func curvedFillCase(o *out.W, r *rng.R, i int) {
 		return
 	}
 	polys, _ := curve.Sample(segs, 40)
+	wits := []canvas.Point{wit}
+	if r.P(1, 2) && len(polys) == 1 {
+		// enclose the curved contour in a rectangle that hugs the curve itself (control points and arc boxes may stick out)
+		x0, y0, x1, y1 := math.Inf(1), math.Inf(1), math.Inf(-1), math.Inf(-1)
+		for _, v := range polys[0] {
+			x0, y0, x1, y1 = math.Min(x0, v.X), math.Min(y0, v.Y), math.Max(x1, v.X), math.Max(y1, v.Y)
+		}
+		mg := rng.Pick(r, []float64{0.25, 0.5, 1})
+		x0, y0, x1, y1 = math.Floor(x0*4)/4-mg, math.Floor(y0*4)/4-mg, math.Ceil(x1*4)/4+mg, math.Ceil(y1*4)/4+mg
+		rect := []curve.Pt{{X: x0, Y: y0}, {X: x1, Y: y0}, {X: x1, Y: y1}, {X: x0, Y: y1}}
+		if r.Bool() {
+			rect[1], rect[3] = rect[3], rect[1]
+		}
+		q := &canvas.Path{}
+		q.MoveTo(rect[0].X, rect[0].Y)
+		for _, v := range rect[1:] {
+			q.LineTo(v.X, v.Y)
+		}
+		q.Close()
+		rw := canvas.Point{X: x0 + 0.125, Y: y0 + 0.125}
+		if r.Bool() {
+			p = q.Append(p)
+			polys = append([][]curve.Pt{rect}, polys...)
+			wits = []canvas.Point{rw, wit}
+		} else {
+			p = p.Append(q)
+			polys = append(polys, rect)
+			wits = append(wits, rw)
+		}
+		fam += "-in-rect"
+	}
 	var ccw, filling []string
 	msg := safe(func() {
-		ccw = append(ccw, cq.Bool(p.CCW()))
+		for _, sp := range p.Split() {
+			ccw = append(ccw, cq.Bool(sp.CCW()))
+		}
 		for rule := 0; rule < 4; rule++ {
 			var fs []string
 			for _, f := range p.Filling(canvas.FillRule(rule)) {
@@ -575,6 +608,10 @@ func curvedFillCase(o *out.W, r *rng.R, i int) {
 		csS = append(csS, cq.List(vs))
 	}
 	g2 := int64(1) << (2 * (cub - 7))
-	term := fmt.Sprintf("mkFill06 %s %s %s %s %s", cq.List(csS), cq.Z(g2), cq.List([]string{cq.Pair(cq.Z(cunits(wit.X)), cq.Z(cunits(wit.Y)))}), cq.List(ccw), cq.List(filling))
+	var witS []string
+	for _, w := range wits {
+		witS = append(witS, cq.Pair(cq.Z(cunits(w.X)), cq.Z(cunits(w.Y))))
+	}
+	term := fmt.Sprintf("mkFill06 %s %s %s %s %s", cq.List(csS), cq.Z(g2), cq.List(witS), cq.List(ccw), cq.List(filling))
 	o.Emit(out.Case{I: i, Fam: fam, Coq: term, Desc: map[string]interface{}{"path": p.String(), "go_ccw": ccw, "go_filling": filling}})
 }
